@@ -28,6 +28,13 @@ def payloads(secret, big):
         'internal-unused': '<!DOCTYPE r [<!ENTITY a "EXPANDED">]><r>ok</r>',
         'external': f'<!DOCTYPE r [<!ENTITY a SYSTEM "file://{secret}">]><r>&a;</r>',
         'parameter': f'<!DOCTYPE r [<!ENTITY % p SYSTEM "file://{secret}"> %p;]><r>ok</r>',
+        # declared and never referred to: the declaration alone is what the property forbids
+        'parameter-declared-only': f'<!DOCTYPE r [<!ENTITY % p SYSTEM "file://{secret}">]><r>ok</r>',
+        'parameter-public-declared-only': f'<!DOCTYPE r [<!ENTITY % p PUBLIC "-//V//P" "file://{secret}">]><r>ok</r>',
+        'parameter-internal-declared-only': '<!DOCTYPE r [<!ENTITY % p "<!ELEMENT r ANY>">]><r>ok</r>',
+        'external-declared-only': f'<!DOCTYPE r [<!ENTITY a SYSTEM "file://{secret}">]><r>ok</r>',
+        # an undefined parameter-entity reference before the declaration (a standalone document: the real parser skips the reference and reads on)
+        'undefined-pe-then-entity-standalone': '<?xml version="1.0" standalone="yes"?><!DOCTYPE r [ %x; <!ENTITY e "EXPANDED">]><r>&e;</r>',
         'unparsed': '<!DOCTYPE r [<!NOTATION n SYSTEM "n"><!ENTITY u SYSTEM "u.bin" NDATA n>]><r>ok</r>',
         'ext-subset': f'<!DOCTYPE r SYSTEM "file://{secret}"><r>ok</r>',
         'ext-subset-standalone': f'<?xml version="1.0" standalone="yes"?><!DOCTYPE r SYSTEM "file://{secret}"><r>ok</r>',
